@@ -49,11 +49,11 @@ func VerifResetSession() {
 		killerMoves[i] = [2]Move{}
 	}
 }
-func VerifSearchRunning() bool         { return search != nil && search.running.Load() }
-func VerifLogInterval() int            { return currmoveLogInterval }
+func VerifSearchRunning() bool             { return search != nil && search.running.Load() }
+func VerifLogInterval() int                { return currmoveLogInterval }
 func (gen *Generator) VerifTop() *Position { return gen.getTopPos() }
 func (gen *Generator) VerifPlyIdx() int    { return int(gen.plyIdx) }
-func VerifEvaluatedNodes() int64       { return evaluatedNodes }
+func VerifEvaluatedNodes() int64           { return evaluatedNodes }
 
 func hexBytes(b []byte) string {
 	const digits = "0123456789abcdef"
